@@ -121,7 +121,10 @@ def scenarios(tier, seed):
     return [{"kind": "iter_sweep", "seed": seed * 1000 + 50 + i, "ndims": 3 if i % 2 == 0 else 2,
              "nf": [4, 2, 6, 1][i % 4], "nlevels": 1 + i % 2, "nfiles": 1 + i % 4,
              "layout": ["shuffled", "roundrobin", "monotone"][i % 3]} for i in range(n)] + \
-        [{"kind": "iter_sweep", "seed": seed * 1000 + 90, "ndims": 3, "nf": 3, "nlevels": 2, "nfiles": 2, "layout": "shuffled", "n0": [9, 8, 8]}]
+        [{"kind": "iter_sweep", "seed": seed * 1000 + 90, "ndims": 3, "nf": 3, "nlevels": 2, "nfiles": 2, "layout": "shuffled", "n0": [9, 8, 8]},
+         # far more binary files (and boxes) at a level than any pool has workers or look-ahead: 8 x 8 x 3 = 192 boxes, one file each
+         {"kind": "iter_sweep", "seed": seed * 1000 + 91, "ndims": 3, "nf": 2, "nlevels": 1, "nfiles": 192, "layout": "roundrobin",
+          "n0": [32, 32, 12], "box": 4, "few_selectors": True}]
 
 
 def run_scenario(p, wd):
